@@ -138,13 +138,478 @@ void h_parse_frame(void)
 {
   IN(size_t, in_n)
   ASSUME(in_n <= REGP_PF_MAX);
-  IN_MEM(in_block, sizeof(RPFrame) + in_n)
+  /* fixed-size block, `used` symbolic (as in regp_recv: allocator block with
+   * the frame filling part of it); a symbolic-size block makes the trace axiom
+   * intractable (measured: > 10 GiB).  Reads past `used` are decided by the
+   * exact-size targets parse_header and check_payload. */
+  IN_MEM(in_block, sizeof(RPFrame) + REGP_PF_MAX)
   RPW_TRACE(T, REGP_PF_MAX, in_block + sizeof(RPFrame) + (in_n >= 12 ? SPEC_HLEN(SPEC_F_OPTS(in_block + sizeof(RPFrame))) : 0),
             (in_n >= 12 && in_n > SPEC_HLEN(SPEC_F_OPTS(in_block + sizeof(RPFrame))))
               ? in_n - SPEC_HLEN(SPEC_F_OPTS(in_block + sizeof(RPFrame))) : 0)
   g_crcT = T;
-  ByteBuffer fb = { in_block, sizeof(RPFrame) + in_n, sizeof(RPFrame) + in_n, 0 };
+  ByteBuffer fb = { in_block, sizeof(RPFrame) + REGP_PF_MAX, sizeof(RPFrame) + in_n, 0 };
   parse_frame(&fb);
+  VERIF_CANARY();
+}
+
+/* --------------------------------------------------------------- framing */
+
+void h_send_memory(void)
+{
+  RPW_INSTANCE()
+  IN(size_t, in_hs) IN(int, in_haspl) IN(size_t, in_ps)
+  ASSUME(in_hs == 12 || in_hs == 14 || in_hs == 16);
+  ASSUME(in_ps <= 4096);
+  IN_MEM(in_hdr, in_hs)
+  IN_MEM(in_pl, in_ps)
+  send_memory(p, in_hdr, in_hs, in_haspl ? in_pl : NULL, in_ps);
+  VERIF_CANARY();
+}
+
+/* -------------------------------------------------------------- emitters */
+
+void h_regp_req_read8(void)
+{
+  RPW_INSTANCE()
+  IN(uint32_t, in_addr) IN(size_t, in_n)
+  ASSUME(in_n <= 0xffffffffu);
+  regp_req_read8(p, in_addr, in_n);
+  VERIF_CANARY();
+}
+
+void h_regp_req_read16(void)
+{
+  RPW_INSTANCE()
+  IN(uint32_t, in_addr) IN(size_t, in_n)
+  ASSUME(in_n <= 0xffffffffu);
+  regp_req_read16(p, in_addr, in_n);
+  VERIF_CANARY();
+}
+
+void h_regp_req_write8(void)
+{
+  RPW_INSTANCE()
+  IN(uint32_t, in_addr) IN(size_t, in_n)
+  ASSUME(in_n <= CRC_NMAX);
+  IN_MEM(in_buf, in_n)
+  RPW_TRACE(T, in_n, in_buf, in_n)
+  g_crcT = T;
+  regp_req_write8(p, in_addr, in_n, in_buf);
+  VERIF_CANARY();
+}
+
+void h_regp_req_write16(void)
+{
+  RPW_INSTANCE()
+  IN(uint32_t, in_addr) IN(size_t, in_n)
+  ASSUME(in_n <= CRC_NMAX / 2);
+  IN_MEM(in_buf, 2 * in_n)
+  RPW_TRACE(T, 2 * in_n, in_buf, 2 * in_n)
+  g_crcT = T;
+  regp_req_write16(p, in_addr, in_n, (const uint16_t *)in_buf);
+  VERIF_CANARY();
+}
+
+void h_regp_reset_session(void)
+{
+  RPW_INSTANCE()
+  regp_reset_session(p);
+  VERIF_CANARY();
+}
+
+#ifndef REGP_PROC_OWNS_RESPONDERS
+/* the request being answered: type, sequence, address arbitrary */
+#define RPW_REQ_FRAME() \
+  IN(int, in_ftype) IN(uint16_t, in_fseq) IN(uint32_t, in_faddr) \
+  ASSUME(in_ftype == RP_FRAME_READ_REQUEST || in_ftype == RP_FRAME_WRITE_REQUEST); \
+  RPFrame *f = malloc(sizeof(RPFrame)); ASSUME(f != NULL); \
+  f->header.type = (RPFrameType)in_ftype; f->header.sequence = in_fseq; f->header.address = in_faddr;
+
+void h_send_resp_0(void)
+{
+  RPW_INSTANCE()
+  RPW_REQ_FRAME()
+  IN(int, in_code) IN(unsigned, in_msem)
+  ASSUME(in_code >= 0 && in_code <= 11 && in_msem <= 2);
+  send_resp_0(p, f, (RPResponse)in_code, in_msem);
+  VERIF_CANARY();
+}
+
+void h_send_resp_32(void)
+{
+  RPW_INSTANCE()
+  RPW_REQ_FRAME()
+  IN(int, in_code) IN(unsigned, in_msem) IN(uint32_t, in_datum)
+  ASSUME(in_code >= 0 && in_code <= 11 && in_msem <= 2);
+  send_resp_32(p, f, (RPResponse)in_code, in_datum, in_msem);
+  VERIF_CANARY();
+}
+
+void h_regp_resp_ack(void)
+{
+  RPW_INSTANCE()
+  RPW_REQ_FRAME()
+  IN(size_t, in_n) IN(int, in_haspl)
+  ASSUME(in_n <= CRC_NMAX / 2);
+  ASSUME(IMPLIES(!in_haspl || in_ftype == RP_FRAME_WRITE_REQUEST, in_n == 0));
+  size_t octets = in_n * (in_mem == RP_MEMTYPE_16 ? 2 : 1);
+  IN_MEM(in_buf, octets)
+  RPW_TRACE(T, octets, in_buf, octets)
+  g_crcT = T;
+  regp_resp_ack(p, f, in_haspl ? in_buf : NULL, in_n);
+  VERIF_CANARY();
+}
+
+#define RPW_H_ERESP_0(fn) \
+  void h_##fn(void) { RPW_INSTANCE() RPW_REQ_FRAME() fn(p, f); VERIF_CANARY(); }
+#define RPW_H_ERESP_32(fn) \
+  void h_##fn(void) { RPW_INSTANCE() RPW_REQ_FRAME() IN(uint32_t, in_datum) fn(p, f, in_datum); VERIF_CANARY(); }
+RPW_H_ERESP_0(regp_resp_ewordsize)
+RPW_H_ERESP_0(regp_resp_epayloadcrc)
+RPW_H_ERESP_0(regp_resp_epayloadsize)
+RPW_H_ERESP_32(regp_resp_erxoverflow)
+RPW_H_ERESP_32(regp_resp_etxoverflow)
+RPW_H_ERESP_0(regp_resp_ebusy)
+RPW_H_ERESP_32(regp_resp_eunmapped)
+RPW_H_ERESP_32(regp_resp_eaccess)
+RPW_H_ERESP_32(regp_resp_erange)
+RPW_H_ERESP_32(regp_resp_einvalid)
+RPW_H_ERESP_0(regp_resp_eio)
+
+void h_regp_resp_meta(void)
+{
+  RPW_INSTANCE()
+  IN(uint8_t, in_meta)
+  ASSUME(in_meta == 1 || in_meta == 2);
+  regp_resp_meta(p, in_meta);
+  VERIF_CANARY();
+}
+
+/* ------------------------------------------------- round trip (C08 lemmas)
+ * The emitter is replaced by its contract (so the transmit record holds the
+ * document's image of the frame), the recorded header is put in front of the
+ * payload in a receive block, and parse_frame -- replaced by its contract, the
+ * reference decoder -- must accept it and yield the emitter's fields.  Both
+ * contracts are enforced on the real functions by their own targets. */
+
+#define RPW_RT_BLOCK() \
+  IN_MEM(in_block, sizeof(RPFrame) + REGP_PF_MAX) \
+  unsigned char *raw = in_block + sizeof(RPFrame);
+
+/* ghost trace over the payload that will sit behind a header of hs octets */
+#define RPW_RT_TRACE(hs, octets) \
+  RPW_TRACE(T, REGP_PF_MAX, raw + (hs), octets) \
+  RPW_TRACE_ASSUME(T, raw + (hs), octets) \
+  g_crcT = T;
+
+static int rpw_rt_receive(unsigned char *block, size_t hs, size_t ps)
+{
+  unsigned char *raw = block + sizeof(RPFrame);
+  CHECK(g_tx_hs == hs, "round trip: header length is the one the document prescribes");
+  CHECK(g_tx_ps == ps, "round trip: payload length");
+  if (g_tx_hs != hs || g_tx_ps != ps) return 1;
+  raw[0] = g_tx_hdr[0]; raw[1] = g_tx_hdr[1]; raw[2] = g_tx_hdr[2]; raw[3] = g_tx_hdr[3];
+  raw[4] = g_tx_hdr[4]; raw[5] = g_tx_hdr[5]; raw[6] = g_tx_hdr[6]; raw[7] = g_tx_hdr[7];
+  raw[8] = g_tx_hdr[8]; raw[9] = g_tx_hdr[9]; raw[10] = g_tx_hdr[10]; raw[11] = g_tx_hdr[11];
+  if (hs >= 14) { raw[12] = g_tx_hdr[12]; raw[13] = g_tx_hdr[13]; }
+  if (hs >= 16) { raw[14] = g_tx_hdr[14]; raw[15] = g_tx_hdr[15]; }
+  ByteBuffer fb = { block, sizeof(RPFrame) + REGP_PF_MAX, sizeof(RPFrame) + hs + ps, 0 };
+  return parse_frame(&fb);
+}
+
+#define RPW_RT_CHECK(rc, type_, w16_, meta_, seq_, addr_, bs_, hs_, ps_) do { \
+  const RPFrame *rf = (const RPFrame *)in_block; \
+  CHECK((rc) == 0, "round trip: the receiver accepts the emitted frame"); \
+  CHECK((unsigned)rf->header.type == (unsigned)(type_), "round trip: type"); \
+  CHECK(rf->header.options == SPEC_EMIT_OPTS(in_ep == RP_EP_SERIAL, (w16_), (unsigned)(type_), (bs_)), "round trip: option bits"); \
+  CHECK(rf->header.meta.raw == (unsigned)(meta_), "round trip: response code / meta"); \
+  CHECK(rf->header.sequence == (uint16_t)(seq_), "round trip: sequence number"); \
+  CHECK(rf->header.address == (uint32_t)(addr_), "round trip: address"); \
+  CHECK(rf->header.blocksize == (uint32_t)(bs_), "round trip: block size"); \
+  CHECK(rf->payload.size == (size_t)(ps_) && rf->payload.data == (void *)(raw + (hs_)), "round trip: payload location and size"); \
+  CHECK(IMPLIES(g_k < (size_t)(ps_), ((const uint8_t *)rf->payload.data)[g_k] == g_tx_octet), "round trip: payload octets"); \
+} while (0)
+
+#define RPW_HS(type_, w16_, n_) SPEC_HLEN(SPEC_EMIT_OPTS(in_ep == RP_EP_SERIAL, (w16_), (type_), (n_)))
+
+void h_lemma_rt_req_read(void)
+{
+  RPW_INSTANCE()
+  RPW_RT_BLOCK()
+  IN(uint32_t, in_addr) IN(size_t, in_n) IN(int, in_w16)
+  ASSUME(in_n <= 0xffffffffu);
+  RPW_RT_TRACE(0, 0)
+  if (in_w16) regp_req_read16(p, in_addr, in_n); else regp_req_read8(p, in_addr, in_n);
+  size_t hs = RPW_HS(SPEC_T_READ_REQ, in_w16 != 0, in_n);
+  int rc = rpw_rt_receive(in_block, hs, 0);
+  RPW_RT_CHECK(rc, SPEC_T_READ_REQ, in_w16 != 0, 0, in_seq, in_addr, in_n, hs, 0);
+  VERIF_CANARY();
+}
+
+void h_lemma_rt_req_write8(void)
+{
+  RPW_INSTANCE()
+  RPW_RT_BLOCK()
+  IN(uint32_t, in_addr) IN(size_t, in_n)
+  ASSUME(in_n <= CRC_NMAX);
+  size_t hs = RPW_HS(SPEC_T_WRITE_REQ, 0, in_n);
+  RPW_RT_TRACE(hs, in_n)
+  regp_req_write8(p, in_addr, in_n, raw + hs);
+  int rc = rpw_rt_receive(in_block, hs, in_n);
+  RPW_RT_CHECK(rc, SPEC_T_WRITE_REQ, 0, 0, in_seq, in_addr, in_n, hs, in_n);
+  VERIF_CANARY();
+}
+
+void h_lemma_rt_req_write16(void)
+{
+  RPW_INSTANCE()
+  RPW_RT_BLOCK()
+  IN(uint32_t, in_addr) IN(size_t, in_n)
+  ASSUME(in_n <= CRC_NMAX / 2);
+  size_t hs = RPW_HS(SPEC_T_WRITE_REQ, 1, in_n);
+  RPW_RT_TRACE(hs, 2 * in_n)
+  regp_req_write16(p, in_addr, in_n, (const uint16_t *)(raw + hs));
+  int rc = rpw_rt_receive(in_block, hs, 2 * in_n);
+  RPW_RT_CHECK(rc, SPEC_T_WRITE_REQ, 1, 0, in_seq, in_addr, in_n, hs, 2 * in_n);
+  VERIF_CANARY();
+}
+
+/* acknowledgements with and without payload */
+void h_lemma_rt_ack(void)
+{
+  RPW_INSTANCE()
+  RPW_RT_BLOCK()
+  RPW_REQ_FRAME()
+  IN(size_t, in_n) IN(int, in_haspl)
+  ASSUME(in_n <= CRC_NMAX / 2);
+  ASSUME(IMPLIES(!in_haspl || in_ftype == RP_FRAME_WRITE_REQUEST, in_n == 0));
+  int w16 = in_mem == RP_MEMTYPE_16;
+  size_t octets = in_n * (w16 ? 2 : 1);
+  size_t hs = RPW_HS((unsigned)in_ftype + 1u, w16, in_n);
+  RPW_RT_TRACE(hs, octets)
+  regp_resp_ack(p, f, in_haspl ? raw + hs : NULL, in_n);
+  int rc = rpw_rt_receive(in_block, hs, octets);
+  RPW_RT_CHECK(rc, (unsigned)in_ftype + 1u, w16, 0, in_fseq, in_faddr, in_n, hs, octets);
+  VERIF_CANARY();
+}
+
+/* each of the eleven error responses, to read and to write requests */
+void h_lemma_rt_eresp(void)
+{
+  RPW_INSTANCE()
+  RPW_RT_BLOCK()
+  RPW_REQ_FRAME()
+  IN(int, in_code) IN(uint32_t, in_datum)
+  ASSUME(in_code >= 1 && in_code <= 11);
+  int with32 = 0;
+  switch (in_code) {
+  case 1: regp_resp_ewordsize(p, f); break;
+  case 2: regp_resp_epayloadcrc(p, f); break;
+  case 3: regp_resp_epayloadsize(p, f); break;
+  case 4: regp_resp_erxoverflow(p, f, in_datum); with32 = 1; break;
+  case 5: regp_resp_etxoverflow(p, f, in_datum); with32 = 1; break;
+  case 6: regp_resp_ebusy(p, f); break;
+  case 7: regp_resp_eunmapped(p, f, in_datum); with32 = 1; break;
+  case 8: regp_resp_eaccess(p, f, in_datum); with32 = 1; break;
+  case 9: regp_resp_erange(p, f, in_datum); with32 = 1; break;
+  case 10: regp_resp_einvalid(p, f, in_datum); with32 = 1; break;
+  default: regp_resp_eio(p, f); break;
+  }
+  size_t ps = with32 ? 4 : 0;
+  size_t hs = RPW_HS((unsigned)in_ftype + 1u, 0, ps);
+  /* the payload of these responses is the big-endian datum (3.1.5 ...): the
+   * record pins it at every index, the receive block is filled accordingly */
+  if (with32) {
+    CHECK(IMPLIES(g_k < 4, g_tx_octet == SPEC_BE32_OCTET(in_datum, g_k)), "error response payload is the 32-bit datum, most significant octet first");
+    raw[hs] = SPEC_BE32_OCTET(in_datum, 0); raw[hs + 1] = SPEC_BE32_OCTET(in_datum, 1);
+    raw[hs + 2] = SPEC_BE32_OCTET(in_datum, 2); raw[hs + 3] = SPEC_BE32_OCTET(in_datum, 3);
+  }
+  RPW_RT_TRACE(hs, ps)
+  int rc = rpw_rt_receive(in_block, hs, ps);
+  RPW_RT_CHECK(rc, (unsigned)in_ftype + 1u, 0, in_code, in_fseq, in_faddr, ps, hs, ps);
+  VERIF_CANARY();
+}
+
+void h_lemma_rt_meta(void)
+{
+  RPW_INSTANCE()
+  RPW_RT_BLOCK()
+  IN(uint8_t, in_meta)
+  ASSUME(in_meta == 1 || in_meta == 2);
+  RPW_RT_TRACE(0, 0)
+  regp_resp_meta(p, in_meta);
+  size_t hs = RPW_HS(SPEC_T_META, 0, 0);
+  int rc = rpw_rt_receive(in_block, hs, 0);
+  RPW_RT_CHECK(rc, SPEC_T_META, 0, in_meta, 0, 0, 0, hs, 0);
+  VERIF_CANARY();
+}
+#endif /* REGP_PROC_OWNS_RESPONDERS */
+
+/* the real encoder against the real decoder, no specification in between:
+ * every header encode_header produces is accepted by parse_header with the
+ * same fields (probe P11 of DESIGN.md) */
+void h_lemma_codec_real(void)
+{
+  RPW_INSTANCE()
+  IN(unsigned, in_msem) IN(uint8_t, in_meta) IN(int, in_type) IN(size_t, in_n)
+  IN(uint16_t, in_seqno) IN(uint32_t, in_addr) IN(uint16_t, in_plcrc)
+  ASSUME(in_msem <= 2 && RPW_TYPE_IN(in_type) && in_n <= 0xffffffffu);
+  ASSUME(SPEC_META_OK((unsigned)in_type, in_meta));
+  IN_MEM(in_buf, 16)
+  size_t words = encode_header((uint16_t *)in_buf, p, in_msem, (RPFrameType)in_type, in_meta, in_seqno, in_addr, in_n, in_plcrc);
+  RPFrame *frame = malloc(sizeof(RPFrame)); ASSUME(frame != NULL);
+  int rc = parse_header(frame, in_buf, 2 * words);
+  CHECK(rc == (int)words, "real round trip: own header accepted, same length");
+  CHECK(frame->header.type == (RPFrameType)in_type && frame->header.meta.raw == in_meta
+        && frame->header.sequence == in_seqno && frame->header.address == in_addr
+        && frame->header.blocksize == (uint32_t)in_n, "real round trip: same fields");
+  CHECK(IMPLIES(regp_has_plcrc(frame), frame->header.plcrc == in_plcrc), "real round trip: payload checksum word");
+  VERIF_CANARY();
+}
+
+/* successive requests of a session: sequence numbers increase by one mod 2^16 */
+void h_lemma_seq_successive(void)
+{
+  RPW_INSTANCE()
+  IN(int, in_first) IN(int, in_second) IN(uint32_t, in_addr) IN(size_t, in_n)
+  ASSUME(in_n <= 0xffffffffu);
+  if (in_first) regp_req_read16(p, in_addr, in_n); else regp_req_read8(p, in_addr, in_n);
+  uint16_t s1 = SPEC_BE16_AT(g_tx_hdr, 2);
+  if (in_second) regp_req_read16(p, in_addr, in_n); else regp_req_read8(p, in_addr, in_n);
+  uint16_t s2 = SPEC_BE16_AT(g_tx_hdr, 2);
+  CHECK(s1 == in_seq && s2 == (uint16_t)(s1 + 1u), "successive requests carry sequence numbers increasing by one modulo 2^16");
+  CHECK(p->session.sequence == (uint16_t)(in_seq + 2u), "counter advanced twice");
+  regp_reset_session(p);
+  regp_req_read8(p, in_addr, in_n);
+  CHECK(SPEC_BE16_AT(g_tx_hdr, 2) == 0u, "first request after a session reset carries sequence number 0");
+  VERIF_CANARY();
+}
+
+/* --------------------------------------------------- corruption (C07 b) */
+
+/* bit position b of an octet sequence in transmission order; lsb_first = the
+ * order a UART puts the bits of an octet on a serial line */
+static void rpw_flip(unsigned char *h, unsigned b, int lsb_first)
+{
+  h[b / 8u] ^= (unsigned char)(lsb_first ? (1u << (b % 8u)) : (0x80u >> (b % 8u)));
+}
+static void rpw_copy16(unsigned char *dst, const unsigned char *src)
+{
+  dst[0] = src[0]; dst[1] = src[1]; dst[2] = src[2]; dst[3] = src[3];
+  dst[4] = src[4]; dst[5] = src[5]; dst[6] = src[6]; dst[7] = src[7];
+  dst[8] = src[8]; dst[9] = src[9]; dst[10] = src[10]; dst[11] = src[11];
+  dst[12] = src[12]; dst[13] = src[13]; dst[14] = src[14]; dst[15] = src[15];
+}
+#ifndef RPW_BURST_LSB_FIRST
+#define RPW_BURST_LSB_FIRST 1
+#endif
+
+/* Header part, real parse_header twice: an accepted serial header (header
+ * checksum present), then the same octets with an error pattern confined to
+ * the protected fields (sequence, address, block size, checksums = octets 2 ..
+ * header end): the verdict must be "bad header checksum". */
+#define RPW_ACCEPTED_SERIAL_HEADER() \
+  IN_MEM(in_h, 16) \
+  RPFrame *frame = malloc(sizeof(RPFrame)); ASSUME(frame != NULL); \
+  int rc1 = parse_header(frame, in_h, 16); \
+  ASSUME(rc1 >= 0 && (SPEC_F_OPTS(in_h) & SPEC_O_HDCRC)); \
+  unsigned hbits = 8u * SPEC_HLEN(SPEC_F_OPTS(in_h)); \
+  unsigned char *h2 = malloc(16); ASSUME(h2 != NULL); \
+  rpw_copy16(h2, in_h);
+
+void h_hdr_err_2bit(void)
+{
+  RPW_ACCEPTED_SERIAL_HEADER()
+  IN(unsigned, in_b1) IN(unsigned, in_b2)
+  ASSUME(in_b1 >= 16 && in_b1 <= in_b2 && in_b2 < hbits);
+  rpw_flip(h2, in_b1, 0);
+  if (in_b2 != in_b1) rpw_flip(h2, in_b2, 0);
+  int rc2 = parse_header(frame, h2, 16);
+  CHECK(rc2 == -EILSEQ, "every one- and two-bit error in the protected header fields is classified as bad header checksum");
+  VERIF_CANARY();
+}
+
+void h_hdr_err_burst(void)
+{
+  RPW_ACCEPTED_SERIAL_HEADER()
+  IN(unsigned, in_start) IN(uint16_t, in_pattern)
+  ASSUME(in_pattern != 0 && (in_pattern & 1u));
+  ASSUME(in_start >= 16 && in_start < hbits);
+  for (unsigned i = 0; i < 16; i++) {
+    if (in_pattern & (1u << i)) {
+      ASSUME(in_start + i < hbits);
+      rpw_flip(h2, in_start + i, RPW_BURST_LSB_FIRST);
+    }
+  }
+  int rc2 = parse_header(frame, h2, 16);
+  CHECK(rc2 == -EILSEQ, "every error burst of up to 16 bits in the protected header fields is classified as bad header checksum");
+  VERIF_CANARY();
+}
+
+/* Frame part at the level of the reference verdict (which parse_frame is
+ * proved to return): a frame accepted with a header checksum, one bit of the
+ * first header word flipped -> rejected, whatever the payload checksum of the
+ * damaged frame comes out as. */
+void h_lemma_word0_bit(void)
+{
+  IN(size_t, in_n) IN(uint16_t, in_crc1) IN(uint16_t, in_crc2) IN(unsigned, in_b)
+  ASSUME(in_n <= REGP_PF_MAX && in_b < 16);
+  IN_MEM(in_f, REGP_PF_MAX)
+  ASSUME(spec_frame_result(in_f, in_n, in_crc1) == 0 && (SPEC_F_OPTS(in_f) & SPEC_O_HDCRC));
+  rpw_flip(in_f, in_b, 0);
+  CHECK(spec_frame_result(in_f, in_n, in_crc2) != 0 && !spec_frame_open(in_f, in_n),
+        "a single-bit error in the first header word is rejected (bad encoding, bad header checksum or implausible payload size)");
+  VERIF_CANARY();
+}
+
+/* truncation and extension: the same octets with any other length are
+ * rejected (too short for the header: bad encoding; otherwise implausible
+ * payload size) */
+void h_lemma_trunc_ext(void)
+{
+  IN(size_t, in_n) IN(size_t, in_n2) IN(uint16_t, in_crc1) IN(uint16_t, in_crc2)
+  ASSUME(in_n <= REGP_PF_MAX && in_n2 <= REGP_PF_MAX && in_n2 != in_n);
+  IN_MEM(in_f, REGP_PF_MAX)
+  ASSUME(spec_frame_result(in_f, in_n, in_crc1) == 0);
+  int r2 = spec_frame_result(in_f, in_n2, in_crc2);
+  CHECK(r2 == -EBADMSG || r2 == -EFAULT, "a truncated or extended frame is rejected as bad header encoding or implausible payload size");
+  CHECK(!spec_frame_open(in_f, in_n2), "and is not in the corner the document leaves open");
+  VERIF_CANARY();
+}
+
+/* Payload part on the real ufw_buffer_crc16_arc: for every payload of up to
+ * RPW_ERR_PAYLOAD_MAX octets and every error pattern of the class, the
+ * checksum changes (so check_payload, proved to compare exactly this checksum,
+ * reports bad payload checksum).  Tier B: bounded payload length. */
+void h_payload_err_2bit(void)
+{
+  IN(size_t, in_len) IN(unsigned, in_b1) IN(unsigned, in_b2)
+  ASSUME(in_len >= 1 && in_len <= RPW_ERR_PAYLOAD_MAX);
+  ASSUME(in_b1 <= in_b2 && in_b2 < 8u * in_len);
+  IN_MEM(in_payload, in_len)
+  uint16_t c1 = ufw_buffer_crc16_arc(in_payload, in_len);
+  rpw_flip(in_payload, in_b1, 0);
+  if (in_b2 != in_b1) rpw_flip(in_payload, in_b2, 0);
+  uint16_t c2 = ufw_buffer_crc16_arc(in_payload, in_len);
+  CHECK(c1 != c2, "every one- and two-bit error in the payload changes its CRC-16/ARC");
+  VERIF_CANARY();
+}
+
+void h_payload_err_burst(void)
+{
+  IN(size_t, in_len) IN(unsigned, in_start) IN(uint16_t, in_pattern)
+  ASSUME(in_len >= 1 && in_len <= RPW_ERR_PAYLOAD_MAX);
+  ASSUME(in_pattern != 0 && (in_pattern & 1u) && in_start < 8u * in_len);
+  IN_MEM(in_payload, in_len)
+  uint16_t c1 = ufw_buffer_crc16_arc(in_payload, in_len);
+  for (unsigned i = 0; i < 16; i++) {
+    if (in_pattern & (1u << i)) {
+      ASSUME(in_start + i < 8u * in_len);
+      rpw_flip(in_payload, in_start + i, RPW_BURST_LSB_FIRST);
+    }
+  }
+  uint16_t c2 = ufw_buffer_crc16_arc(in_payload, in_len);
+  CHECK(c1 != c2, "every error burst of up to 16 bits in the payload changes its CRC-16/ARC");
   VERIF_CANARY();
 }
 
